@@ -27,6 +27,7 @@ ConstV == {V("const", 0, "none", FALSE, keep, lit) : keep \in BOOLEAN, lit \in {
 ObjV == {V("object", xp, "none", FALSE, keep, "") : xp \in {0, 1, 3}, keep \in BOOLEAN}
 ArrV == {V("array", 0, "none", FALSE, keep, "") : keep \in BOOLEAN}
 CatV == {V("concat", xp, ty, FALSE, FALSE, "") : xp \in {0, 1}, ty \in {"none", "int"}}
+        \cup {V("coalesce", 0, "none", FALSE, FALSE, ""), V("upper", 0, "none", FALSE, FALSE, "")}
 AllV == FieldV \cup ConstV \cup ObjV \cup ArrV \cup CatV
 LeafK == {"field", "const"}
 
@@ -40,10 +41,11 @@ Mk(m, p, v) == [m |-> m, par |-> p, kind |-> [i \in 1..m |-> v[i].kind], xp |-> 
                 notrim |-> [i \in 1..m |-> v[i].notrim], keep |-> [i \in 1..m |-> v[i].keep], lit |-> [i \in 1..m |-> v[i].lit]]
 
 TreeOK(m, p, v) ==
+  /\ \A i \in 1..m : v[i].kind = "upper" => Cardinality({j \in 2..m : p[j] = i}) = 1          \* upper(s): exactly one argument
   /\ v[1] \in {V("object", 0, "none", FALSE, FALSE, ""), V("object", 0, "none", FALSE, TRUE, "")}   \* FINAL_OUTPUT
   /\ \A i \in 2..m : /\ v[p[i]].kind \notin LeafK                                   \* only composites have children
-                     /\ (v[p[i]].kind = "concat" => v[i].kind \in {"field", "const", "concat"})   \* well-typed arguments
-                     /\ (v[p[i]].kind = "concat" => v[i].ty = "none")      \* string-typed arguments (ill-typed calls belong to C03)
+                     /\ (v[p[i]].kind \in FuncKinds => v[i].kind \in {"field", "const"} \cup FuncKinds)   \* well-typed arguments
+                     /\ (v[p[i]].kind \in FuncKinds => v[i].ty = "none")      \* string-typed arguments (ill-typed calls belong to C03)
                      /\ ~(v[i].kind = "array" /\ v[p[i]].kind = "array")                      \* the schema grammar forbids it
 
 DynV == {V("dynfield", 0, ty, FALSE, keep, "") : ty \in {"none", "int"}, keep \in BOOLEAN}
